@@ -37,11 +37,15 @@ func sanitizeDestURL(dest string) string {
 }
 
 func resolveDest(dest string, pathName string, matches []string) string {
-	out := strings.ReplaceAll(dest, "$MTX_PATH", pathName)
+	out := dest
 
 	for i := len(matches) - 1; i >= 1; i-- {
 		out = strings.ReplaceAll(out, "$G"+strconv.FormatInt(int64(i), 10), matches[i])
 	}
+
+	// replace $MTX_PATH after groups: a path name starting with a digit,
+	// inserted right after "$G1", must not turn it into "$G1<digit>".
+	out = strings.ReplaceAll(out, "$MTX_PATH", pathName)
 
 	return out
 }
